@@ -90,6 +90,8 @@ type genCfg struct {
 	cnrs    int
 	// noExpiredParent: known finding fpExpParent is open, do not generate its class.
 	noExpiredParent bool
+	// forceTomb: the first family has a stored member and at least one tombstone.
+	forceTomb bool
 }
 
 func blank(kind string, c, id int) uni.Spec {
@@ -167,7 +169,7 @@ func genSet(t *rapid.T, cfg genCfg) Set {
 		}
 		switch form {
 		case "plain":
-			if rapid.IntRange(0, 5).Draw(t, "stored") > 0 {
+			if rapid.IntRange(0, 5).Draw(t, "stored") > 0 || cfg.forceTomb && fi == 0 {
 				sp := blank(uni.Regular, c, f.Root)
 				sp.Exp = f.RootExp
 				add(fam, rPlain, sp)
@@ -175,7 +177,7 @@ func genSet(t *rapid.T, cfg genCfg) Set {
 		case "v2":
 			first := alloc(c)
 			pick := rapid.IntRange(1, 15).Draw(t, "v2-parts") // bit set of first/mid/last/link
-			if pick&0b1100 == 0 && rapid.IntRange(0, 5).Draw(t, "force-carrier") > 0 {
+			if pick&0b1100 == 0 && (cfg.forceTomb && fi == 0 || rapid.IntRange(0, 5).Draw(t, "force-carrier") > 0) {
 				pick |= 0b0100
 			}
 			if pick&1 != 0 {
@@ -198,6 +200,9 @@ func genSet(t *rapid.T, cfg genCfg) Set {
 			}
 		case "v1":
 			pick := rapid.IntRange(1, 3).Draw(t, "v1-parts")
+			if cfg.forceTomb && fi == 0 {
+				pick |= 2
+			}
 			split := usedSplit[c]
 			usedSplit[c]++
 			if pick&1 != 0 {
@@ -238,6 +243,12 @@ func genSet(t *rapid.T, cfg genCfg) Set {
 
 		nT := rapid.SampledFrom([]int{0, 0, 0, 1, 1, 1, 1, 2}).Draw(t, "ntomb")
 		nL := rapid.SampledFrom([]int{0, 0, 0, 0, 1, 1, 1, 2}).Draw(t, "nlock")
+		if cfg.forceTomb && fi == 0 {
+			nT = max(nT, 1)
+			if !cfg.allowLT {
+				nL = 0
+			}
+		}
 		if nT > 0 && nL > 0 && !cfg.allowLT {
 			if rapid.Bool().Draw(t, "keep-tomb") {
 				nL = 0
